@@ -10,7 +10,7 @@ def select(lhs, fam):
         return True
     if lhs == 'plain_terminated':
         return False
-    return fam in ('BODY', 'INCASE', 'PROC0', 'DECL') or lhs in PROC_NTS or lhs == 'nestedcase'
+    return fam in ('BODY', 'XB', 'PROC0', 'DECL') or lhs in PROC_NTS
 
 
 def terminal_table_obligations(rep):
@@ -24,7 +24,7 @@ def terminal_table_obligations(rep):
 
 
 def run(rep):
-    common.verify_functions(rep, [(CSL, 'total')])
+    common.verify_functions(rep, [(CSL, 'total'), (CSL, 'state invariant')])
     for o in sc.production_obligations('C17', select):
         if o.status == FAILED:
             o.witness = sc.replay_production(o, 'proc')
